@@ -9,7 +9,7 @@ for prop in sys.argv[4:]:
         sd = os.path.join(d, k)
         if not os.path.isfile(os.path.join(sd, "patch.diff")):
             continue
-        out = subprocess.run(["/verif/tools/try_mutant.sh", os.path.join(sd, "patch.diff"), prop], capture_output=True, text=True, timeout=1800).stdout
+        out = subprocess.run(["/verif/tools/try_mutant_wt.sh", os.path.join(sd, "patch.diff"), prop], capture_output=True, timeout=1800).stdout.decode("utf-8", "replace")
         m = re.search(r"== %s exit=(\d+)" % prop, out)
         code = int(m.group(1)) if m else -1
         viol = re.findall(r"violated: \[([^\]]+)\]", out)
